@@ -42,15 +42,18 @@ def FUEL : Nat := 400
 
 
 /-! ## worlds -/
-def roll (ext : List (String × Ext)) (base : List String) : GW := ⟨⟨cls_Roll_impls, cls_Roll_mro, cls_Roll_hooks, ext⟩, base⟩
+/-- a world over the generated table of a class; the calling convention for callable explicit values is the generated one -/
+def mkW (impls : List Impl) (mro hooks : List String) (ext : List (String × Ext)) : World :=
+  { impls := impls, mro := mro, hooks := hooks, ext := ext, conv := hookget_call }
+def roll (ext : List (String × Ext)) (base : List String) : GW := ⟨mkW cls_Roll_impls cls_Roll_mro cls_Roll_hooks ext, base⟩
 def passRoll (ext : List (String × Ext)) (base : List String) : GW :=
-  ⟨⟨cls_PassRoll_impls, cls_PassRoll_mro, cls_PassRoll_hooks, ext⟩, base⟩
-def transport (ext : List (String × Ext)) : GW := ⟨⟨cls_Transport_impls, cls_Transport_mro, cls_Transport_hooks, ext⟩, []⟩
-def pipe : GW := ⟨⟨cls_CoolingPipe_impls, cls_CoolingPipe_mro, cls_CoolingPipe_hooks, []⟩, []⟩
+  ⟨mkW cls_PassRoll_impls cls_PassRoll_mro cls_PassRoll_hooks ext, base⟩
+def transport (ext : List (String × Ext)) : GW := ⟨mkW cls_Transport_impls cls_Transport_mro cls_Transport_hooks ext, []⟩
+def pipe : GW := ⟨mkW cls_CoolingPipe_impls cls_CoolingPipe_mro cls_CoolingPipe_hooks [], []⟩
 def twoRollPass (ext : List (String × Ext)) : GW :=
-  ⟨⟨cls_TwoRollPass_impls, cls_TwoRollPass_mro, cls_TwoRollPass_hooks, ext⟩, []⟩
+  ⟨mkW cls_TwoRollPass_impls cls_TwoRollPass_mro cls_TwoRollPass_hooks ext, []⟩
 def threeRollPass (ext : List (String × Ext)) : GW :=
-  ⟨⟨cls_ThreeRollPass_impls, cls_ThreeRollPass_mro, cls_ThreeRollPass_hooks, ext⟩, []⟩
+  ⟨mkW cls_ThreeRollPass_impls cls_ThreeRollPass_mro cls_ThreeRollPass_hooks ext, []⟩
 
 def gf : String × Ext := ("groove.groove_factor", .avail)
 
